@@ -242,12 +242,13 @@ class InitOwnership(FunctionContract):
         f = e['obj'].fields
         pairs = {'model': [('endogenous', 'ENDOGENOUS'), ('check', 'CHECK')], 'linker': [('endogenous', 'ENDOGENOUS'), ('check', 'CHECK')],
                  'alias': [('preferred_names', 'PREFERRED_NAMES')], 'interface': [('names', 'NAMES')]}[e['which']]
+        tag = ('C11', 'C18') if e['which'] == 'alias' else None
         for attr, cattr in pairs:
             v = f.get(attr)
             c = getattr(cls, cattr)
-            ctx.prove(z3.BoolVal(v is not None and v == c), f'instance_{attr}_equals_the_class_{cattr}', 'ensures')
+            ctx.prove(z3.BoolVal(v is not None and v == c), f'instance_{attr}_equals_the_class_{cattr}', 'ensures', **({'props': tag} if tag else {}))
             shared = any(v is getattr(k, n, None) for k in cls.__mro__ for n in ('ENDOGENOUS', 'EXOGENOUS', 'NAMES', 'CHECK', 'PREFERRED_NAMES', 'ALIASES'))
-            ctx.prove(z3.BoolVal(not shared), f'instance_{attr}_is_a_copy_not_the_class_level_object', 'own')
+            ctx.prove(z3.BoolVal(not shared), f'instance_{attr}_is_a_copy_not_the_class_level_object', 'own', **({'props': tag} if tag else {}))
         if e['which'] in ('model', 'linker'):
             ctx.prove(z3.BoolVal(f.get('endogenous') is not f.get('check')), 'instance_endogenous_and_check_are_distinct_lists', 'own', props=('C11', 'C04'))
         if e['which'] == 'linker':
@@ -259,8 +260,39 @@ class InitOwnership(FunctionContract):
         if e['which'] == 'alias':
             al = f.get('aliases')
             ctx.prove(z3.BoolVal(al == {'GDP': 'Y', 'out': 'Y'}), 'alias_chains_are_resolved_to_the_underlying_variable', 'ensures', note=str(al))
-            ctx.prove(z3.BoolVal(al is not cls.ALIASES), 'instance_aliases_is_a_copy_not_the_class_level_object', 'own')
+            ctx.prove(z3.BoolVal(al is not cls.ALIASES), 'instance_aliases_is_a_copy_not_the_class_level_object', 'own', props=('C11', 'C18'))
             ctx.prove(z3.BoolVal(dict(cls.ALIASES) == {'GDP': 'Y', 'out': 'GDP'} and list(cls.PREFERRED_NAMES) == ['GDP']), 'class_level_tables_untouched', 'frame')
 
 
 CONTRACTS += [InitOwnership(w) for w in ('model', 'linker', 'alias', 'interface')]
+
+
+class TraceInit(FunctionContract):
+    """Trace(names): the trace owns its list of names - a fresh list equal to `names`, whatever kind of sequence was passed (the class-level
+    TRACE_VARIABLES list, the model's own `names` list, a tuple, a caller's list) - and starts empty."""
+    qualname = 'fsic.extensions.model.Trace.__init__'
+    props = ('C11', 'C17')
+
+    def scenarios(self):
+        return ['list', 'tuple', 'empty-list']
+
+    def setup(self, interp, scenario):
+        from fsic.extensions.model import Trace
+        names = {'list': ['Y', 'C'], 'tuple': ('Y', 'C'), 'empty-list': []}[scenario]
+        obj = SObj(Trace, {}, label='trace')
+        e = {'names': names, 'obj': obj, 'inputs': {}}
+        return Call([names], {}, self_obj=obj, entry=e)
+
+    def post(self, interp, scenario, call, out):
+        ctx = interp.ctx
+        e = call.entry
+        if out.kind == 'raise':
+            ctx.prove(False, 'constructor_does_not_raise', 'raises')
+            return
+        got = e['obj'].fields.get('names')
+        ctx.prove(z3.BoolVal(isinstance(got, list) and got == list(e['names'])), 'names_is_a_list_equal_to_the_names_given', 'ensures', note=str(got))
+        ctx.prove(z3.BoolVal(got is not e['names']), 'names_is_not_the_sequence_that_was_passed_in', 'own')
+        ctx.prove(z3.BoolVal(e['obj'].fields.get('index') == []), 'starts_without_snapshots', 'ensures')
+
+
+CONTRACTS.append(TraceInit())
